@@ -725,3 +725,62 @@ Contract(
 # the many raising points of the try block all enter one `except:`; their states are joined before the handler runs
 # (an over-approximation, justified by join-frame obligations) instead of running the handler once per point
 __import__("pyvc.contracts", fromlist=["REGISTRY"]).REGISTRY[HANDLER + ".do_POST"].join_handlers = True
+
+
+# --- CGI handler (C17): the reply is announced with its byte length and the configured content type ------------------------------------
+CGI = "jsonrpclib.SimpleJSONRPCServer.CGIJSONRPCRequestHandler"
+
+
+def _cgi_domain(c):
+    return z3.And(disp_inv(c, c.a.self), V.is_list(c.gold("out")), Val.llen(c.gold("out")) >= 0, V.is_str(c.a.request_text))
+
+
+def _co(c, k):
+    return z3.Select(Val.lat(c.gnew("out")), Val.llen(c.gold("out")) + k)
+
+
+Contract(
+    CGI + ".handle_jsonrpc",
+    kinds={"request_text": "str"},
+    requires=[("handler", _cgi_domain)],
+    ensures=[("six_steps", lambda c: implies(c.returns, Val.llen(c.gnew("out")) == Val.llen(c.gold("out")) + 6), ("C17",)),
+             ("declares_the_configured_content_type", lambda c: implies(c.returns, _co(c, 0) == tup(
+                 V.S("print"), V.S("Content-Type:"), c.old(c.old(c.a.self, "json_config"), "content_type"))), ("C17",)),
+             # the declared length is the number of BYTES written, and the body is written after the blank line
+             ("declares_the_byte_length_of_the_body", lambda c: implies(c.returns, z3.And(
+                 z3.Select(Val.tat(_co(c, 1)), 0) == V.S("print"), z3.Select(Val.tat(_co(c, 1)), 1) == V.S("Content-Length:"),
+                 z3.Select(Val.tat(_co(c, 4)), 0) == V.S("write"), V.is_bytes(z3.Select(Val.tat(_co(c, 4)), 1)),
+                 z3.Select(Val.tat(_co(c, 1)), 2) == V.VInt(z3.Length(Val.y(z3.Select(Val.tat(_co(c, 4)), 1)))))), ("C17",)),
+             ("headers_end_before_the_body", lambda c: implies(c.returns, z3.And(
+                 _co(c, 2) == tup(V.S("print")), _co(c, 3) == tup(V.S("flush")), _co(c, 5) == tup(V.S("flush")))), ("C17",)),
+             ("nothing_written_when_it_fails", lambda c: implies(c.raised, c.gnew("out") == c.gold("out")), ("C17",)),
+             ("config_untouched", lambda c: config_unchanged(c, c.old(c.a.self, "json_config")), ("C13",))],
+    modifies=[Ghost(g) for g in ("out", "call_log", "env_calls", "env_outcomes", "env_kind", "env_val", "bind_err", "pool_accepted",
+                                 "uuid_ctr", "xlate_log", "x_kind", "x_val", "last_dumped", "imports", "constructs",
+                                 "checked_name", "bean_attrs")] +
+             [Fresh(f) for f in ("faultCode", "faultString", "rpcid", "config", "data", "id", "version", "args") + _CFG_FIELDS] +
+             pool_frame(lambda c: c.a.self),
+    props=("C17",),
+)
+
+
+# --- dispatcher construction and notification pool ------------------------------------------------------------------------------------
+Contract(
+    DISP + ".__init__",
+    kinds={"encoding": "val", "config": "obj:" + CONFIG},
+    requires=[("config", lambda c: valid_config(c, c.a.config)), ("encoding", lambda c: z3.Or(V.is_none(c.a.encoding), V.is_str(c.a.encoding)))],
+    ensures=[("fresh_dispatcher", lambda c: z3.And(
+        c.returns, c.new(c.a.self, "json_config") == c.a.config, V.is_none(c.new(c.a.self, POOLF)),
+        c.new(c.a.self, "funcs") == V.empty_dict(), V.is_none(c.new(c.a.self, "instance")),
+        c.new(c.a.self, "encoding") == z3.If(V.truthy(c.a.encoding), c.a.encoding, V.S("UTF-8"))), ("C02", "C13")),
+             ("config_shared_not_copied_nor_written", lambda c: config_unchanged(c, c.a.config), ("C13",))],
+    modifies=[Field(lambda c: c.a.self, f) for f in ("json_config", POOLF, "funcs", "instance", "allow_none", "encoding", "use_builtin_types")],
+    props=("C13",),
+)
+Contract(
+    DISP + ".set_notification_pool",
+    kinds={"thread_pool": "val"},
+    ensures=[("pool_replaced", lambda c: z3.And(c.returns, c.new(c.a.self, POOLF) == c.a.thread_pool), ("C04",))],
+    modifies=[Field(lambda c: c.a.self, POOLF)],
+    props=("C04",),
+)
